@@ -79,14 +79,15 @@ class MKey(object):
         return [u for u in self.uids if not u.removed]
 
     def truncate_times(self):
-        for u in self.uids:
-            for s in u.sigs:
+        """On the wire creation times have second granularity.  Signatures that now tie keep the order they had
+        before the hop (that is the packet order of the export), so their sequence numbers are re-dealt in that order."""
+        groups = [u.sigs for u in self.uids] + [sk.sigs for sk in self.subs] + [self.direct]
+        for sigs in groups:
+            ordered = sorted(sigs, key=SigRec.rank)
+            seqs = sorted(s.seq for s in sigs)
+            for s, q in zip(ordered, seqs):
+                s.seq = q
                 s.created_us -= s.created_us % 1_000_000
-        for sk in self.subs:
-            for s in sk.sigs:
-                s.created_us -= s.created_us % 1_000_000
-        for s in self.direct:
-            s.created_us -= s.created_us % 1_000_000
 
 
 def gen_universe(rng, n=None, heavy=0.08):
